@@ -363,6 +363,20 @@ def dSCall (j : Json) : D B.SCall := do
   | "op" => pure (.op (← fStr j "name") (← dQuery (fld j "other")))
   | s => throw s!"set-operation call {s}"
 
+
+def dTCall (j : Json) : D B.TCall := do
+  match (← (fld j "m").getStr?) with
+  | "as_" => pure (.as_ (← fOptStr j "alias"))
+  | "when" => pure (.when (← dTerm (fld j "crit")) (← dArg (fld j "val")))
+  | "else_" => pure (.else_ (← dArg (fld j "val")))
+  | "filter" => pure (.filter (← (← fArr j "cs").mapM dTerm))
+  | "over" => pure (.over (← (← fArr j "terms").mapM dTerm))
+  | "orderby" => pure (.orderby (← (← fArr j "terms").mapM dTerm) (← jOptOrd (fld j "order")))
+  | "frame" => pure (.frame (← fStr j "kind") (← dEdge (fld j "lo")) (← jOpt dEdge (fld j "hi")))
+  | "ignore_nulls" => pure .ignoreNulls
+  | "distinct" => pure .distinct
+  | s => throw s!"term-builder call {s}"
+
 /-! DDL builder calls (`DDLBuilder.lean`) -/
 def dColArg (j : Json) : D DDLB.ColArg := do
   match (← (fld j "k").getStr?) with
